@@ -17,7 +17,7 @@ def size(e):
     c = e['coverage']
     parts = []
     for k in ('executions', 'evaluations', 'states', 'transitions', 'configurations'):
-        if k in c:
+        if k in c and isinstance(c[k], (int, float)) and not isinstance(c[k], bool):
             parts.append(f'{c[k]:,} {k}'.replace(',', ' '))
     if 'depth' in c:
         parts.append(f"depth {c['depth']}")
